@@ -85,3 +85,16 @@ func onlyLoaded(instr *ssa.IndexAddr) bool {
 }
 
 var noReplayCheck = os.Getenv("GOSE_NO_REPLAY_CHECK") != ""
+
+// primarySolver is the solver the current run uses first (recorded in the evidence).
+var primarySolver = solverZ3New
+
+func (k solverKind) String() string {
+	switch k {
+	case solverZ3New:
+		return "z3 5.1.0 (z3-new)"
+	case solverCVC5:
+		return "cvc5 1.0"
+	}
+	return "z3 4.8.12"
+}
